@@ -90,6 +90,7 @@ def coq_files():
 def build_coq(targets=None, timeout=1500):
     """full .vo build with make -k; returns (ok_all, log)."""
     with Lock("coq"):
+        sh([sys.executable, os.path.join(VERIF, "tools", "assemble.py")], timeout=60)
         if not os.path.exists(os.path.join(COQ, "Makefile")) or \
            os.path.getmtime(os.path.join(COQ, "Makefile")) < os.path.getmtime(os.path.join(COQ, "_CoqProject")):
             rc, o, e = sh("coq_makefile -f _CoqProject -o Makefile", cwd=COQ, timeout=120)
@@ -138,6 +139,7 @@ def property_obligations(pid):
 # ------------------------------------------------------------------ modelrun
 def build_modelrun():
     with Lock("ocaml"):
+        sh([sys.executable, os.path.join(VERIF, "tools", "assemble.py")], timeout=60)
         ex = os.path.join(COQ, "extract")
         # Extract.v depends only on *Defs.v files, so it builds even when a proof file is broken
         rc, o, e = sh("timeout 600 coqc -Q .. Cocls Extract.v", cwd=ex, timeout=640)
